@@ -39,9 +39,35 @@ MergeAndDirect(stmts) == \E b \in AllBins(stmts) : b.l.k = "ref" /\ b.r.k = "ref
 NormE(e) == IF e.k = "cond" /\ e.v.k = "num" /\ e.v.v = 1 THEN e.c ELSE e
 CseAlias(stmts) == \E i, j \in Lets(stmts) : i # j /\ NormE(stmts[i].e) = NormE(stmts[j].e)
 
-KnownFinding(stmts, clause) ==
+(* KF-C02-scalar-operand-visible: in (bundle CMP x) : out, any(bundle) CMP x and all(bundle) CMP x with a SIGNAL x, *)
+(* x travels on the wire the each/anything/everything combinator reads, so x itself is treated as a member: it      *)
+(* appears in the filter result and takes part in the quantification.                                               *)
+RECURSIVE SubE(_)
+SubE(e) == {e} \cup (CASE e.k = "bin" -> SubE(e.l) \cup SubE(e.r)
+                        [] e.k \in {"un", "proj", "lit"} -> SubE(e.e)
+                        [] e.k = "cond" -> SubE(e.c) \cup SubE(e.v)
+                        [] e.k = "blit" -> UNION {SubE(e.es[i]) : i \in DOMAIN e.es}
+                        [] e.k \in {"sel", "any", "all"} -> SubE(e.b)
+                        [] OTHER -> {})
+AllSub(stmts) == UNION {SubE(stmts[i].e) : i \in Lets(stmts)}
+IsBundleName(stmts, n) == \E i \in Lets(stmts) : stmts[i].n = n /\ stmts[i].ty = "Bundle"
+BundleCmpSignal(stmts) ==
+  \E e \in AllSub(stmts) : e.k = "bin" /\ e.op \in {"==", "!=", "<", "<=", ">", ">="} /\ e.r.k # "num"
+       /\ (e.l.k \in {"any", "all"} \/ (e.l.k = "ref" /\ IsBundleName(stmts, e.l.n)))
+
+(* KF-C02-nested-literal: a bundle literal that contains a NAMED bundle which is itself a literal ({ bb, s } with    *)
+(* bb = { a, b, ... }): the members of the inner bundle are not wired to the consumers of the outer one.             *)
+NestedLiteral(stmts) ==
+  \E e \in AllSub(stmts) : e.k = "blit" /\ \E i \in DOMAIN e.es : e.es[i].k = "ref" /\
+       \E j \in Lets(stmts) : stmts[j].n = e.es[i].n /\ stmts[j].ty = "Bundle" /\ stmts[j].e.k = "blit" /\ Len(e.es) > 1
+
+KnownFinding1(stmts, clause) ==
   IF clause = "C01_value" /\ Triangle(stmts) THEN "KF-C01-sametype-triangle"
   ELSE IF clause = "C01_value" /\ MergeAndDirect(stmts) THEN "KF-C01-merge-and-direct"
   ELSE IF clause = "C20_exposed" /\ CseAlias(stmts) THEN "KF-C20-cse-alias"
   ELSE ""
+KnownFinding(stmts, clause) ==
+  IF clause \in {"C02_bag", "C01_value"} /\ BundleCmpSignal(stmts) THEN "KF-C02-scalar-operand-visible"
+  ELSE IF clause = "C02_bag" /\ NestedLiteral(stmts) THEN "KF-C02-nested-literal"
+  ELSE KnownFinding1(stmts, clause)
 =============================================================================
